@@ -130,7 +130,41 @@ def replay_ringbuffer(prop, result, fresh, wd, info):
     return False
 
 
-HOOKS = {'ringbuffer': replay_ringbuffer}
+def replay_array(prop, result, fresh, wd, info):
+    exe, out = build_native('arr_replay', os.path.join(ROOT, 'replay', 'arr_replay.cpp'), wd)
+    if exe is None:
+        info['native'] = 'replay driver does not build against the current tree: ' + out[-1500:]
+        return False
+    env = dict(os.environ, ASAN_OPTIONS='detect_leaks=0:abort_on_error=0')
+    name = result['name']
+    ops = {'ctor_ptr': ['ptr {n}'], 'ctor_list': ['list 3'], 'ctor_size': ['size {n}'], 'ctor_fill': ['fill {n} 5'],
+           'ctor_copy': ['fill {n} 5', 'copy'], 'ctor_move': ['fill {n} 5', 'move'], 'assign_copy': ['fill {n} 5', 'assign {m}'],
+           'assign_move': ['fill {n} 5', 'massign {m}'], 'resize_fill': ['fill {n} 5', 'resizefill {m} 6'], 'resize': ['fill {n} 5', 'resize {m}'],
+           'dtor': ['fill {n} 5'], 'destroy': ['fill {n} 5', 'resize {m}'], 'initialize': ['size {n}', 'resize {m}'], 'swap': ['fill {n} 5', 'swap {m}']}
+    key = None
+    for k in sorted(ops, key=len, reverse=True):
+        if k in name:
+            key = k
+            break
+    if key is None:
+        info['native'] = 'no script template for this harness'
+        return False
+    for n in range(0, 5):
+        for m in range(0, 5):
+            script = '\n'.join(o.format(n=n, m=m) for o in ops[key]) + '\n'
+            sp = os.path.join(wd, 'replay_script.txt')
+            with open(sp, 'w') as fh:
+                fh.write(script)
+            rc, o = _run([exe, sp], timeout=60, env=env)
+            if rc != 0 and ('CONFIRMED' in o or 'ERROR: AddressSanitizer' in o or 'runtime error' in o):
+                info['native'] = {'input': 'lengths n=%d m=%d' % (n, m), 'script': script, 'outcome': 'CONFIRMED',
+                                  'output': '\n'.join([l for l in o.split('\n') if 'CONFIRMED' in l or 'ERROR' in l or 'runtime error' in l][:6])}
+                return True
+    info['native'] = {'outcome': 'NOT-REPRODUCED', 'tried': 'all lengths 0..4 for the operation of the failing harness'}
+    return False
+
+
+HOOKS = {'ringbuffer': replay_ringbuffer, 'array': replay_array, 'arrayb': replay_array}
 
 
 def make_replay(prop, result, fresh, wd, tier):
